@@ -465,7 +465,7 @@ CHECKS["C07"] = {
                   "and in 1-, 2- and 7-byte chunks; delivered bytes must equal the payload. Plain text announced as gzip/deflate/lzma must be passed through. Bombs: 4 MiB (quick) / 64 MiB "
                   "(thorough) of zeros in 1-3 gzip layers x bomb limit {1 KiB, 64 KiB, default} x delivery {whole, 1 KiB chunks, first 64 bytes one at a time}: delivered <= max(limit, 2048 x "
                   "compressed) + 8192; a body of two gzip members must deliver both payloads (known finding KF-GZIP-MULTIMEMBER); wide bombs (64 / 128 MiB of zeros, outer layer Huffman-only: 10 / 18 KiB on the wire, more than one output buffer) under the same bound; "
-                  "3 MiB bodies (384 output buffers, where the time accounting samples the clock) under a frozen clock at five epochs, both directions; layer limits 0..3 x 1..3 layers: exactly min(k, L) layers removed; the virtual clock jumps past the time limit at each of the first 40 gettimeofday calls.",
+                  "3 MiB bodies (384 output buffers, where the time accounting samples the clock) under a frozen clock at five epochs, both directions; layer limits 0..3 x 1..3 layers: exactly min(k, L) layers removed; the virtual clock jumps past the time limit at each of the first 40 gettimeofday calls; 15 ms (below the limit) pass at each of the first 24 clock readings while the clock stands 10 ms before a full second (seconds change, microseconds wrap), both directions: the body must come out decoded.",
     "level_note": "zlib's and the bundled LZMA decoder's own correctness are trusted. Multi-layer bodies are built in the listed order (first coding applied first).",
     "design_ref": "DESIGN.md §6 C07",
     "rule": "payload x coding x framing x side x {whole, every cut, cut pairs, 1/2/7-byte}; bombs and layer/clock scenarios; distinct = distinct callback traces",
